@@ -91,7 +91,7 @@ func (c *Check) dotTaint() {
 			}
 		}
 	})
-	if nSinks < 8 {
+	if nSinks < 5 { // eight on the reviewed tree; emitters that build their text first and write once have fewer
 		c.undecided("C18-R1", "sinks", "", fmt.Sprintf("only %d DOT sinks found in package graph (expected the start, legend, node, nodelet, edge and finish emitters)", nSinks))
 	}
 	c.Extra["dot_sinks"] = nSinks
